@@ -1,0 +1,192 @@
+//! Verification hooks. Compiled only with `--cfg fclones_verif`; never part of a normal build.
+//!
+//! Everything here is driven by environment variables and does nothing when they are unset:
+//!
+//! - `FCLONES_VERIF_DISK_KIND` = `ssd` | `hdd` | `unknown`: pins the kind of every disk device.
+//! - `FCLONES_VERIF_PAUSE` = `name[:path-suffix][,name[:path-suffix]...]` together with
+//!   `FCLONES_VERIF_PAUSE_DIR` = directory: when a listed sync point is reached, the file
+//!   `<dir>/<name>.reached` is created and the thread waits until `<dir>/<name>.go` exists.
+//! - `FCLONES_VERIF_JITTER` = `seed:max_micros`: pseudo-random sleeps at the jitter points.
+//! - `FCLONES_VERIF_EVENTS` = file: append-only event log, one JSON object per line.
+
+use std::fs::OpenOptions;
+use std::io::Write;
+use std::sync::atomic::{AtomicU64, Ordering};
+use std::sync::Mutex;
+use std::time::{Duration, Instant};
+
+use lazy_static::lazy_static;
+use sysinfo::DiskKind;
+
+struct PausePoint {
+    name: String,
+    suffix: Option<String>,
+}
+
+struct Settings {
+    disk_kind: Option<DiskKind>,
+    pause_dir: Option<String>,
+    pause_points: Vec<PausePoint>,
+    jitter: Option<(u64, u64)>,
+    events: Option<Mutex<std::fs::File>>,
+}
+
+fn parse_settings() -> Settings {
+    let disk_kind = match std::env::var("FCLONES_VERIF_DISK_KIND").ok().as_deref() {
+        Some("ssd") => Some(DiskKind::SSD),
+        Some("hdd") => Some(DiskKind::HDD),
+        Some("unknown") => Some(DiskKind::Unknown(-1)),
+        _ => None,
+    };
+    let pause_dir = std::env::var("FCLONES_VERIF_PAUSE_DIR").ok();
+    let pause_points = std::env::var("FCLONES_VERIF_PAUSE")
+        .map(|s| {
+            s.split(',')
+                .filter(|p| !p.is_empty())
+                .map(|p| match p.split_once(':') {
+                    Some((name, suffix)) => PausePoint {
+                        name: name.to_owned(),
+                        suffix: Some(suffix.to_owned()),
+                    },
+                    None => PausePoint {
+                        name: p.to_owned(),
+                        suffix: None,
+                    },
+                })
+                .collect()
+        })
+        .unwrap_or_default();
+    let jitter = std::env::var("FCLONES_VERIF_JITTER").ok().and_then(|s| {
+        let (seed, max) = s.split_once(':')?;
+        Some((seed.parse().ok()?, max.parse().ok()?))
+    });
+    let events = std::env::var("FCLONES_VERIF_EVENTS").ok().and_then(|p| {
+        OpenOptions::new()
+            .create(true)
+            .append(true)
+            .open(p)
+            .ok()
+            .map(Mutex::new)
+    });
+    Settings {
+        disk_kind,
+        pause_dir,
+        pause_points,
+        jitter,
+        events,
+    }
+}
+
+lazy_static! {
+    static ref SETTINGS: Settings = parse_settings();
+    static ref STAGE: Mutex<String> = Mutex::new(String::from("init"));
+}
+
+static EVENT_SEQ: AtomicU64 = AtomicU64::new(0);
+static JITTER_SEQ: AtomicU64 = AtomicU64::new(0);
+
+/// The disk kind all devices should be pinned to, if requested.
+pub fn disk_kind_override() -> Option<DiskKind> {
+    SETTINGS.disk_kind
+}
+
+/// Records the name of the grouping stage being executed (stages never overlap).
+pub fn set_stage(stage: &str) {
+    *STAGE.lock().unwrap() = stage.to_owned();
+    event("stage", stage);
+}
+
+pub fn stage() -> String {
+    STAGE.lock().unwrap().clone()
+}
+
+fn json_escape(s: &str) -> String {
+    let mut out = String::with_capacity(s.len() + 2);
+    for c in s.chars() {
+        match c {
+            '"' => out.push_str("\\\""),
+            '\\' => out.push_str("\\\\"),
+            c if (c as u32) < 0x20 => out.push_str(&format!("\\u{:04x}", c as u32)),
+            c => out.push(c),
+        }
+    }
+    out
+}
+
+/// Appends an event to the event log.
+pub fn event(kind: &str, detail: &str) {
+    if let Some(file) = &SETTINGS.events {
+        let mut file = file.lock().unwrap();
+        let seq = EVENT_SEQ.fetch_add(1, Ordering::SeqCst);
+        let line = format!(
+            "{{\"n\":{},\"k\":\"{}\",\"d\":\"{}\",\"t\":\"{:?}\"}}\n",
+            seq,
+            json_escape(kind),
+            json_escape(detail),
+            std::thread::current().id()
+        );
+        let _ = file.write_all(line.as_bytes());
+    }
+}
+
+/// Called by a hashing task after it has computed a hash of the file with the given path.
+pub fn hash_done(path: &str) {
+    let stage = stage();
+    event("hash.done", &format!("{stage} {path}"));
+    sync_point(&format!("hash.done.{stage}"), path);
+}
+
+/// Sleeps for a pseudo-random time if jitter was requested.
+/// Only called between critical sections, never with a lock held.
+pub fn jitter(_name: &str) {
+    if let Some((seed, max_micros)) = SETTINGS.jitter {
+        if max_micros == 0 {
+            return;
+        }
+        let n = JITTER_SEQ.fetch_add(1, Ordering::Relaxed);
+        // splitmix64
+        let mut z = seed
+            .wrapping_add(n.wrapping_mul(0x9E3779B97F4A7C15))
+            .wrapping_add(0x9E3779B97F4A7C15);
+        z = (z ^ (z >> 30)).wrapping_mul(0xBF58476D1CE4E5B9);
+        z = (z ^ (z >> 27)).wrapping_mul(0x94D049BB133111EB);
+        z ^= z >> 31;
+        let micros = z % (max_micros + 1);
+        if micros > 0 {
+            std::thread::sleep(Duration::from_micros(micros));
+        }
+    }
+}
+
+/// Blocks at a named point until the controlling process lets the program continue.
+pub fn sync_point(name: &str, detail: &str) {
+    let settings: &Settings = &SETTINGS;
+    let dir = match &settings.pause_dir {
+        Some(dir) => dir,
+        None => return,
+    };
+    let listed = settings.pause_points.iter().any(|p| {
+        p.name == name
+            && match &p.suffix {
+                Some(suffix) => detail.ends_with(suffix.as_str()),
+                None => true,
+            }
+    });
+    if !listed {
+        return;
+    }
+    event("pause", name);
+    let reached = format!("{dir}/{name}.reached");
+    let go = format!("{dir}/{name}.go");
+    let _ = std::fs::write(&reached, detail.as_bytes());
+    let start = Instant::now();
+    while !std::path::Path::new(&go).exists() {
+        if start.elapsed() > Duration::from_secs(60) {
+            eprintln!("FCLONES_VERIF_WATCHDOG sync point {name} was never released");
+            let _ = std::fs::write(format!("{dir}/{name}.watchdog"), b"");
+            return;
+        }
+        std::thread::sleep(Duration::from_millis(1));
+    }
+    event("resume", name);
+}
